@@ -213,6 +213,7 @@ type c11Server struct {
 	hsDelay   time.Duration // ... and delays the handshake of every connection but the first by this much (slow dial)
 	naccept   int
 	accepted  chan struct{}     // one token per accepted TCP connection
+	lateNext  time.Duration     // mode "latereply": > 0: the next reply is delayed by this much and the connection closed right behind it
 	cutNext   int               // mode "cut": > 0: the next reply is written only up to this many bytes, then the connection is closed
 	holdFd    int               // mode "down": bound, not listening socket that reserves the port while the server is down (-1: none)
 	srvClosed map[net.Conn]bool // connections the server itself has closed from outside their serve goroutine
@@ -388,6 +389,25 @@ func (s *c11Server) cutConns(kind string, at int) {
 		frame := c11Frame(pb)
 		s.log.add(c11rawEvent{k: "pclose", port: c11PortOf(c.RemoteAddr()), id: -1})
 		c.Write(frame[:c11CutLen(at, len(frame))])
+		s.srvClosed[c] = true
+		c.Close()
+		delete(s.conns, c)
+	}
+}
+
+// pushCloseConns (mode "slowpush") writes a complete pushed package (request id 0, a payload for the application's
+// push callback) on every open connection and closes the connection right behind it.
+func (s *c11Server) pushCloseConns() {
+	s.mu.Lock()
+	defer s.mu.Unlock()
+	for c := range s.conns {
+		push := requestf.ResponsePacket{IVersion: s.version, IRequestId: 0, SBuffer: tools.ByteToInt8([]byte("pushed"))}
+		pb := codec.NewBuffer()
+		if err := push.WriteTo(pb); err != nil {
+			continue
+		}
+		s.log.add(c11rawEvent{k: "pclose", port: c11PortOf(c.RemoteAddr()), id: -1})
+		c.Write(c11Frame(pb))
 		s.srvClosed[c] = true
 		c.Close()
 		delete(s.conns, c)
@@ -573,13 +593,20 @@ func (s *c11Server) serve(c net.Conn) {
 			}
 			frame := c11Frame(ob)
 			s.mu.Lock()
-			cut := s.cutNext
+			cut, late := s.cutNext, s.lateNext
 			if callNo != c11WarmID {
-				s.cutNext = 0
+				s.cutNext, s.lateNext = 0, 0
 			} else {
-				cut = 0
+				cut, late = 0, 0
 			}
 			s.mu.Unlock()
+			if late > 0 {
+				// the reply arrives about when its caller gives up; the server closes right behind it
+				time.Sleep(late)
+				c.Write(frame)
+				s.log.add(c11rawEvent{k: "pclose", port: port, id: -1})
+				return
+			}
 			if cut > 0 {
 				// close in the middle of the response
 				s.log.add(c11rawEvent{k: "pclose", port: port, id: -1})
@@ -665,7 +692,7 @@ type c11Case struct {
 	PushClose bool   `json:"push_close,omitempty"` // pushcmd: the server closes the notified connection itself right after the notification
 	TLS       bool   `json:"tls,omitempty"`        // ssl endpoint: the scripted server speaks TLS, the client uses its configured TLS settings
 	CutKind   string `json:"cut_kind,omitempty"`   // mode cut: what the server is writing when it closes in the middle of a package: push | notify | response
-	CutAt     int    `json:"cut_at,omitempty"`     // mode cut: number of bytes of that package written before the close (clamped to 1..len-1)
+	CutAt     int    `json:"cut_at,omitempty"`     // mode cut: number of bytes of that package written before the close (clamped to 1..len-1); mode latereply: offset in us of the reply from the caller's deadline
 	QueueLen  int    `json:"queue_len,omitempty"`  // > 0: length of the client's send queue (default 10000)
 	PauseUs   int    `json:"pause_us,omitempty"`   // > 0: each round is two sets of calls on the same connection with this idle period between them
 
@@ -676,10 +703,14 @@ type c11Case struct {
 }
 
 func c11Call(sp *tars.ServantProxy, callNo int) error {
+	return c11CallCtx(context.Background(), sp, callNo)
+}
+
+func c11CallCtx(ctx context.Context, sp *tars.ServantProxy, callNo int) error {
 	var buf [8]byte
 	binary.BigEndian.PutUint64(buf[:], uint64(callNo))
 	var rsp requestf.ResponsePacket
-	err := sp.TarsInvoke(context.Background(), 0, "echo", buf[:], nil, nil, &rsp)
+	err := sp.TarsInvoke(ctx, 0, "echo", buf[:], nil, nil, &rsp)
 	if err != nil {
 		return err
 	}
@@ -734,7 +765,7 @@ func c11RunScript(c *c11Case) ([]c11Event, string) {
 		c.Seq = 1
 	}
 	k := c.Burst * c.Seq * c11Halves(c)
-	if c.Mode == "held" || c.Mode == "heldq" || c.Mode == "pushcmd" || c.Mode == "down" || c.Mode == "tlsheld" || c.Mode == "cut" {
+	if c.Mode == "held" || c.Mode == "heldq" || c.Mode == "pushcmd" || c.Mode == "down" || c.Mode == "tlsheld" || c.Mode == "cut" || c.Mode == "slowpush" || c.Mode == "latereply" {
 		k = -1 // closes / notifies on command only
 	}
 	srv, err := c11StartServer(c.Mode, k, log, c.TLS)
@@ -782,6 +813,12 @@ func c11RunScript(c *c11Case) ([]c11Event, string) {
 	}
 	if c.Mode == "cut" {
 		return c11RunCut(c, srv, sp, log), ""
+	}
+	if c.Mode == "slowpush" {
+		return c11RunSlowPush(c, srv, sp, log), ""
+	}
+	if c.Mode == "latereply" {
+		return c11RunLateReply(c, srv, sp, log), ""
 	}
 	callNo := 0
 	for round := 0; round <= c.Rounds; round++ {
@@ -908,7 +945,7 @@ func c11RunHeld(c *c11Case, srv *c11Server, sp *tars.ServantProxy, log *c11Log) 
 			relMu.Lock()
 			released = time.Now()
 			relMu.Unlock()
-			log.release <- struct{}{}
+			c11Signal(log.release)
 			<-doneA
 		}
 		tcs := tars.VerifC11Clients(sp)
@@ -936,7 +973,7 @@ func c11RunHeld(c *c11Case, srv *c11Server, sp *tars.ServantProxy, log *c11Log) 
 			relMu.Lock()
 			released = time.Now()
 			relMu.Unlock()
-			log.release <- struct{}{}
+			c11Signal(log.release)
 			time.Sleep(20 * time.Millisecond)
 		}
 		if c.DelayUs > 0 {
@@ -963,6 +1000,15 @@ func c11RunHeld(c *c11Case, srv *c11Server, sp *tars.ServantProxy, log *c11Log) 
 	}
 	time.Sleep(5 * time.Millisecond)
 	return c11Canon(log)
+}
+
+// c11Signal releases a goroutine waiting on ch; if nobody is waiting any more (the waiter has given up after its own
+// time limit) it gives up after a second instead of blocking the script.
+func c11Signal(ch chan struct{}) {
+	select {
+	case ch <- struct{}{}:
+	case <-time.After(time.Second):
+	}
 }
 
 // c11ConnOf reads the closed flag and the current connection of a client; a failed TLS dial leaves a nil *tls.Conn
@@ -1141,7 +1187,7 @@ func c11RunTLS(c *c11Case, srv *c11Server, sp *tars.ServantProxy, log *c11Log) [
 			relMu.Lock()
 			released = time.Now()
 			relMu.Unlock()
-			log.release <- struct{}{}
+			c11Signal(log.release)
 		}
 		tcs := tars.VerifC11Clients(sp)
 		if len(tcs) == 0 {
@@ -1256,6 +1302,105 @@ func c11RunCut(c *c11Case, srv *c11Server, sp *tars.ServantProxy, log *c11Log) [
 	return c11Canon(log)
 }
 
+// c11RunLateReply is the script for a reply that arrives about when its caller gives up, directly followed by a
+// close: call X has a deadline of c11LateMs, the server answers it CutAt us before/after that deadline and closes right
+// behind the reply. X is not judged. The calls issued after the client has
+// observed the close must be fast and arrive exactly once.
+func c11RunLateReply(c *c11Case, srv *c11Server, sp *tars.ServantProxy, log *c11Log) []c11Event {
+	callNo := 0
+	c11OneCall(sp, log, callNo)
+	callNo++
+	for round := 0; round < c.Rounds; round++ {
+		tcs := tars.VerifC11Clients(sp)
+		if len(tcs) == 0 {
+			break
+		}
+		srv.mu.Lock()
+		srv.lateNext = time.Duration(c11LateMs)*time.Millisecond + time.Duration(c.CutAt)*time.Microsecond
+		srv.mu.Unlock()
+		x := callNo
+		callNo++
+		log.add(c11rawEvent{k: "enq", id: x, down: true})
+		t0 := time.Now()
+		ctx, cancel := context.WithTimeout(context.Background(), time.Duration(c11LateMs)*time.Millisecond)
+		err := c11CallCtx(ctx, sp, x)
+		cancel()
+		ms := int(time.Since(t0) / time.Millisecond)
+		if err != nil {
+			log.add(c11rawEvent{k: "fail", id: x, ms: ms})
+		} else {
+			log.add(c11rawEvent{k: "reply", id: x, ms: ms})
+		}
+		observed := false
+		for deadline := time.Now().Add(4 * time.Second); time.Now().Before(deadline); time.Sleep(200 * time.Microsecond) {
+			if closed, conn := c11ConnOf(tcs[0]); closed && conn != nil {
+				observed = true
+				log.add(c11rawEvent{k: "obs", id: -1, port: c11PortOf(conn.LocalAddr())})
+				break
+			}
+		}
+		if !observed {
+			break
+		}
+		for b := 0; b < c.Burst; b++ {
+			c11OneCall(sp, log, callNo)
+			callNo++
+		}
+	}
+	time.Sleep(5 * time.Millisecond)
+	return c11Canon(log)
+}
+
+const c11LateMs = 150
+
+// c11RunSlowPush is the script for a close that directly follows a package whose handling takes long: the
+// application has registered a push callback that does not return until the harness lets it; the server writes a
+// pushed package and closes the connection behind it. While the callback is still running the client must notice
+// the close (the harness waits for that at most 1.5 s and goes on regardless), and the calls issued then - the
+// callback still running - must go over a new connection, be fast and arrive exactly once.
+func c11RunSlowPush(c *c11Case, srv *c11Server, sp *tars.ServantProxy, log *c11Log) []c11Event {
+	started := make(chan struct{}, 16)
+	release := make(chan struct{})
+	sp.SetPushCallback(func([]byte) {
+		started <- struct{}{}
+		select {
+		case <-release:
+		case <-time.After(20 * time.Second):
+		}
+	})
+	callNo := 0
+	c11OneCall(sp, log, callNo)
+	callNo++
+	for round := 0; round < c.Rounds; round++ {
+		tcs := tars.VerifC11Clients(sp)
+		if len(tcs) == 0 {
+			break
+		}
+		srv.pushCloseConns()
+		select {
+		case <-started:
+		case <-time.After(4 * time.Second):
+			return c11Canon(log)
+		}
+		for deadline := time.Now().Add(1500 * time.Millisecond); time.Now().Before(deadline); time.Sleep(200 * time.Microsecond) {
+			if closed, conn := c11ConnOf(tcs[0]); closed && conn != nil {
+				log.add(c11rawEvent{k: "obs", id: -1, port: c11PortOf(conn.LocalAddr())})
+				break
+			}
+		}
+		if c.DelayUs > 0 {
+			time.Sleep(time.Duration(c.DelayUs) * time.Microsecond)
+		}
+		for b := 0; b < c.Burst; b++ {
+			c11OneCall(sp, log, callNo)
+			callNo++
+		}
+		c11Signal(release)
+	}
+	time.Sleep(5 * time.Millisecond)
+	return c11Canon(log)
+}
+
 // c11Canon turns the raw log into the canonical trace: generations are numbered in accept order, a dial event
 // is placed before the first event that mentions the generation, ports and timestamps are dropped.
 func c11Canon(l *c11Log) []c11Event {
@@ -1328,6 +1473,12 @@ func c11Monitor(c *c11Case, evs []c11Event) map[string]string {
 	}
 	if c.Mode == "tlsheld" {
 		per, total = 0, 1+c.Rounds*(2+c.Burst)
+	}
+	if c.Mode == "slowpush" {
+		per, total = 0, 1+c.Rounds*c.Burst
+	}
+	if c.Mode == "latereply" {
+		per, total = 0, 1+c.Rounds*(1+c.Burst)
 	}
 	if c.Mode == "cut" {
 		per, total = 0, 1+c.Rounds*c.Burst
@@ -1433,6 +1584,9 @@ func c11Run(c *c11Case) []Failure {
 		c.Retries++
 		e2, _ := c11RunOnce(c)
 		again := c11Monitor(c, e2)
+		if os.Getenv("C11_DEBUG") != "" {
+			fmt.Fprintf(os.Stderr, "C11_DEBUG first=%v again=%v events=%+v\n", first, again, e2)
+		}
 		done := false
 		for sig := range again {
 			if _, ok := first[sig]; ok {
@@ -1462,6 +1616,10 @@ func c11Run(c *c11Case) []Failure {
 				what = fmt.Sprintf("send goroutine held just before its write, server closes the connection, %d further call(s) %d us after the observed close, then the goroutine is released", c.Burst, c.DelayUs)
 			} else if c.Mode == "tlsheld" {
 				what = fmt.Sprintf("TLS endpoint with a %v handshake delay; send goroutine held before its write, server closes the connection (receiver reports the loss), a call re-dials, the held goroutine is released while the dial is in progress (its failed write reports the loss a second time), then %d further call(s)", c11HandshakeDelay, c.Burst)
+			} else if c.Mode == "latereply" {
+				what = fmt.Sprintf("a call with a %d ms deadline is answered %d us after that deadline and the server closes right behind the reply, then %d call(s) after the observed close", c11LateMs, c.CutAt, c.Burst)
+			} else if c.Mode == "slowpush" {
+				what = fmt.Sprintf("server writes a pushed package and closes the connection behind it, the application's push callback is still running, %d call(s) %d us after the close was (or should have been) observed", c.Burst, c.DelayUs)
 			} else if c.Mode == "cut" {
 				what = fmt.Sprintf("server closes the connection after the first %d byte(s) of a %s package, %d call(s) %d us after the observed close", c.CutAt, c.CutKind, c.Burst, c.DelayUs)
 			} else if c.Mode == "down" {
@@ -1597,6 +1755,15 @@ func c11Gen(tier string, rng *rand.Rand) []c11Case {
 		offs := []int{rng.Intn(20), 80 + rng.Intn(40), 380 + rng.Intn(50), 570 + rng.Intn(60)}
 		cs = append(cs, c11Case{Mode: "pushcmd", Burst: 1, Seq: 1, Rounds: 2, OffsMs: offs, PushClose: r%2 == 1, TLS: true})
 		cs = append(cs, c11Case{Mode: "down", Burst: 1 + rng.Intn(2), Seq: 1, DelayUs: 1000, Rounds: 2, TLS: true})
+	}
+	for r := 0; r < 2*reps; r++ {
+		// a close right behind a package whose handling takes long (push callback still running)
+		cs = append(cs, c11Case{Mode: "slowpush", Burst: 1 + rng.Intn(3), Seq: 1, DelayUs: []int{0, 1000, 50000}[rng.Intn(3)], Rounds: 2 + rng.Intn(2), TLS: r%4 == 3})
+	}
+	for r := 0; r < 2*reps; r++ {
+		// a reply that arrives about when its caller gives up, directly followed by a close
+		off := []int{-3000, -1000, -200, 0, 200, 1000, 3000}[rng.Intn(7)] + rng.Intn(200) - 100
+		cs = append(cs, c11Case{Mode: "latereply", Burst: 1 + rng.Intn(2), Seq: 1, Rounds: 2 + rng.Intn(2), CutAt: off, TLS: r%4 == 3})
 	}
 	for r := 0; r < 3*reps; r++ {
 		// the server goes away in the middle of a package
